@@ -28,3 +28,12 @@ pub open spec fn paths_post(g: TypeGenerator, h: Head, is_field: bool, r: Result
         },
     }
 }
+
+/// (copy of U-COMPACTAS' vocabulary) a concrete unsigned integer primitive of at most 128 bits
+pub open spec fn uint128_p(tp: TypePath) -> bool {
+    match tp.0 {
+        TypePathInner::Type(TypePathType::Primitive { def }) =>
+            def is U8 || def is U16 || def is U32 || def is U64 || def is U128,
+        _ => false,
+    }
+}
